@@ -172,3 +172,91 @@ def half_lookup(arr, m, N):
         return sym.asc(arr[stored_index(m, N)])
     mm = tuple(-x for x in m)
     return sym.cconj(sym.asc(arr[stored_index(mm, N)]))
+
+
+# ---------------------------------------------------------------------------
+# band-limited trigonometric polynomials as dicts  m -> Cx  (exact convolution
+# algebra over integer wavenumbers: no FFT, no aliasing can occur here)
+# ---------------------------------------------------------------------------
+
+
+def retained_band(N, fraction):
+    """largest integer K with K <= fraction*(N//2) - 1 (documented dealiasing
+    rule), computed in exact rationals; -1 if nothing is retained"""
+    import math
+
+    lim = Fraction(fraction) * (N // 2) - 1
+    return math.floor(lim)
+
+
+def band_of(uh, N, K):
+    """Fourier coefficients c_m = uh(m)/N^D of the band-truncated state, for all
+    |m|_inf <= K (two-sided, Hermitian completion of the stored half)."""
+    D = uh.ndim
+    inv = Fl(1.0 / N**D, Fraction(1, N**D))
+    out = {}
+    rng = range(-K, K + 1)
+    for m in itertools.product(rng, repeat=D):
+        out[m] = sym.cscale(half_lookup(uh, m, N), inv)
+    return out
+
+
+def b_add(*bs):
+    out = {}
+    for b in bs:
+        for m, v in b.items():
+            out[m] = sym.cadd(out[m], v) if m in out else v
+    return out
+
+
+def b_scale(b, s):
+    return {m: (sym.cscale(v, s) if not isinstance(s, Cx) else sym.cmul(v, s)) for m, v in b.items()}
+
+
+def b_mul(a, b):
+    """product of two trigonometric polynomials (full convolution)"""
+    acc = {}
+    for p, x in a.items():
+        for q, y in b.items():
+            k = tuple(i + j for i, j in zip(p, q))
+            acc.setdefault(k, []).append(sym.cmul(x, y))
+    return {k: csum(v) for k, v in acc.items()}
+
+
+def b_deriv(b, d, W, order=1):
+    return {m: sym.cmul(v, ik_pow(W, m[d], order)) for m, v in b.items()}
+
+
+def b_const(D, value):
+    return {(0,) * D: sym.asc(value)}
+
+
+def b_laplace_inv(b, W):
+    out = {}
+    for m, v in b.items():
+        k2 = sum(x * x for x in m)
+        if k2 == 0:
+            out[m] = Cx(ZERO, ZERO)
+        else:
+            # 1 / (-(W^2) k2)
+            den = sym.rneg(sym.rmul(sym.rmul(W, W), fl(k2)))
+            out[m] = Cx(sym.rdiv(v.re, den), sym.rdiv(v.im, den))
+    return out
+
+
+def b_laplace(b, W):
+    D = len(next(iter(b)))
+    return b_add(*[b_deriv(b, d, W, 2) for d in range(D)])
+
+
+def b_to_stored(b, D, N, K):
+    """stored half spectrum (N^D normalisation) of the polynomial b truncated to
+    |k|_inf <= K"""
+    out = np.empty(spectrum_shape(D, N), dtype=object)
+    scale = fl(N**D)
+    for idx, m in stored_modes(D, N):
+        if max(abs(x) for x in m) <= K and m in b:
+            out[idx] = sym.cscale(b[m], scale)
+        else:
+            out[idx] = Cx(ZERO, ZERO)
+    return out
